@@ -502,20 +502,23 @@ theorem pairQuarksLoop_frame (env : Env) (reg : List (Str × Node)) (ns0 : NS) (
       simp only [this, Bool.false_eq_true, if_false] at h
       exact ih acc h (fun q' hq' => hne q' (by simp [hq']))
 
-theorem floatQuarks_mem (env : Env) (reg : List (Str × Node)) (ns ns' : NS)
-    (h : floatQuarks env reg ns = .ok ns') (q : Node) (hk : q.kind = .quark) :
-    q ∈ ns' ↔ (q ∈ ns ∧ quarkFloated env reg q = .ok false) := by
-  induction ns generalizing ns' with
+/-- where the pairing loop puts each error-quark function: it stays in the namespace unless a
+    class owns it, then it is among the floated ones; nothing is lost, nothing is invented -/
+theorem floatQuarks_mem (env : Env) (reg : List (Str × Node)) (ns : NS) (r : NS × List Node)
+    (h : floatQuarks env reg ns = .ok r) (q : Node) (hk : q.kind = .quark) :
+    (q ∈ r.1 ↔ (q ∈ ns ∧ quarkFloated env reg q = .ok false)) ∧
+    (q ∈ r.2 ↔ (q ∈ ns ∧ quarkFloated env reg q = .ok true)) := by
+  induction ns generalizing r with
   | nil => simp only [floatQuarks, pure, Except.pure] at h; cases h; simp
   | cons n rest ih =>
     unfold floatQuarks at h
     simp only [bind, Except.bind] at h
     cases hr : floatQuarks env reg rest with
     | error e => rw [hr] at h; cases h
-    | ok rest' =>
+    | ok r' =>
       rw [hr] at h
       simp only at h
-      have ih' := ih rest' hr
+      have ih' := ih r' hr
       by_cases hnk : n.kind = .quark
       · simp only [hnk, beq_self_eq_true, if_true] at h
         split at h
@@ -528,35 +531,242 @@ theorem floatQuarks_mem (env : Env) (reg : List (Str × Node)) (ns ns' : NS)
             | true =>
               simp only [if_true, pure, Except.pure] at h
               cases h
-              rw [ih']
-              constructor
-              · rintro ⟨h1, h2⟩; exact ⟨List.mem_cons_of_mem _ h1, h2⟩
-              · rintro ⟨h1, h2⟩
-                rcases List.mem_cons.mp h1 with rfl | h1
-                · rw [hf] at h2; cases h2
-                · exact ⟨h1, h2⟩
+              simp only [List.mem_cons, ih'.1, ih'.2]
+              refine ⟨?_, ?_⟩
+              · constructor
+                · rintro ⟨h1, h2⟩; exact ⟨Or.inr h1, h2⟩
+                · rintro ⟨rfl | h1, h2⟩
+                  · rw [hf] at h2; cases h2
+                  · exact ⟨h1, h2⟩
+              · constructor
+                · rintro (rfl | ⟨h1, h2⟩)
+                  · exact ⟨Or.inl rfl, hf⟩
+                  · exact ⟨Or.inr h1, h2⟩
+                · rintro ⟨rfl | h1, h2⟩
+                  · exact Or.inl rfl
+                  · exact Or.inr ⟨h1, h2⟩
             | false =>
               simp only [Bool.false_eq_true, if_false, pure, Except.pure] at h
               cases h
-              simp only [List.mem_cons, ih']
-              constructor
-              · rintro (rfl | ⟨h1, h2⟩)
-                · exact ⟨Or.inl rfl, hf⟩
-                · exact ⟨Or.inr h1, h2⟩
-              · rintro ⟨rfl | h1, h2⟩
-                · exact Or.inl rfl
-                · exact Or.inr ⟨h1, h2⟩
+              simp only [List.mem_cons, ih'.1, ih'.2]
+              refine ⟨?_, ?_⟩
+              · constructor
+                · rintro (rfl | ⟨h1, h2⟩)
+                  · exact ⟨Or.inl rfl, hf⟩
+                  · exact ⟨Or.inr h1, h2⟩
+                · rintro ⟨rfl | h1, h2⟩
+                  · exact Or.inl rfl
+                  · exact Or.inr ⟨h1, h2⟩
+              · constructor
+                · rintro ⟨h1, h2⟩; exact ⟨Or.inr h1, h2⟩
+                · rintro ⟨rfl | h1, h2⟩
+                  · rw [hf] at h2; cases h2
+                  · exact ⟨h1, h2⟩
       · have : (n.kind == Kind.quark) = false := beq_eq_false_iff_ne.mpr hnk
         simp only [this, Bool.false_eq_true, if_false, pure, Except.pure] at h
         cases h
-        simp only [List.mem_cons, ih']
-        constructor
-        · rintro (rfl | ⟨h1, h2⟩)
-          · exact absurd hk hnk
-          · exact ⟨Or.inr h1, h2⟩
-        · rintro ⟨rfl | h1, h2⟩
-          · exact absurd hk hnk
-          · exact Or.inr ⟨h1, h2⟩
+        simp only [List.mem_cons, ih'.1, ih'.2]
+        refine ⟨?_, ?_⟩
+        · constructor
+          · rintro (rfl | ⟨h1, h2⟩)
+            · exact absurd hk hnk
+            · exact ⟨Or.inr h1, h2⟩
+          · rintro ⟨rfl | h1, h2⟩
+            · exact absurd hk hnk
+            · exact Or.inr ⟨h1, h2⟩
+        · constructor
+          · rintro ⟨h1, h2⟩; exact ⟨Or.inr h1, h2⟩
+          · rintro ⟨rfl | h1, h2⟩
+            · exact absurd hk hnk
+            · exact ⟨h1, h2⟩
+
+/-- a successful pairing loop decided `quarkFloated` for every error-quark function -/
+theorem floatQuarks_decided (env : Env) (reg : List (Str × Node)) (ns : NS) (r : NS × List Node)
+    (h : floatQuarks env reg ns = .ok r) (q : Node) (hq : q ∈ ns) (hk : q.kind = .quark) :
+    ∃ b, quarkFloated env reg q = .ok b := by
+  induction ns generalizing r with
+  | nil => cases hq
+  | cons n rest ih =>
+    unfold floatQuarks at h
+    simp only [bind, Except.bind] at h
+    cases hr : floatQuarks env reg rest with
+    | error e => rw [hr] at h; cases h
+    | ok r' =>
+      rw [hr] at h
+      simp only at h
+      rcases List.mem_cons.mp hq with rfl | hq'
+      · simp only [hk, beq_self_eq_true, if_true] at h
+        split at h
+        · cases h
+        · cases hf : quarkFloated env reg q with
+          | error e => rw [hf] at h; cases h
+          | ok b => exact ⟨b, rfl⟩
+      · exact ih r' hr hq'
+
+/-- only error-quark functions are floated -/
+theorem floatQuarks_floated_kind (env : Env) (reg : List (Str × Node)) (ns : NS) (r : NS × List Node)
+    (h : floatQuarks env reg ns = .ok r) (q : Node) (hq : q ∈ r.2) : q.kind = .quark := by
+  induction ns generalizing r with
+  | nil => simp only [floatQuarks, pure, Except.pure] at h; cases h; cases hq
+  | cons n rest ih =>
+    unfold floatQuarks at h
+    simp only [bind, Except.bind] at h
+    cases hr : floatQuarks env reg rest with
+    | error e => rw [hr] at h; cases h
+    | ok r' =>
+      rw [hr] at h
+      simp only at h
+      by_cases hnk : n.kind = .quark
+      · simp only [hnk, beq_self_eq_true, if_true] at h
+        split at h
+        · cases h
+        · cases hf : quarkFloated env reg n with
+          | error e => rw [hf] at h; cases h
+          | ok b =>
+            rw [hf] at h
+            cases b with
+            | true =>
+              simp only [if_true, pure, Except.pure] at h
+              cases h
+              rcases List.mem_cons.mp hq with rfl | hq'
+              · exact hnk
+              · exact ih r' hr hq'
+            | false =>
+              simp only [Bool.false_eq_true, if_false, pure, Except.pure] at h
+              cases h
+              exact ih r' hr hq
+      · have : (n.kind == Kind.quark) = false := beq_eq_false_iff_ne.mpr hnk
+        simp only [this, Bool.false_eq_true, if_false, pure, Except.pure] at h
+        cases h
+        exact ih r' hr hq
+
+/-- the error-domain loop when every function that names node `x` reports the same domain `d`:
+    `x` ends up with `d`, or no function named it and it is untouched -/
+theorem pairQuarksLoop_agree (env : Env) (reg : List (Str × Node)) (ns0 : NS) (x : Str) (d : Option Str)
+    (qs : List Node) (acc res : NS) (n : Node)
+    (h : pairQuarksLoop env reg ns0 qs acc = .ok res)
+    (hn : nsGet acc x = some n) (hk : n.kind = .enum)
+    (hagree : ∀ q ∈ qs, q.kind = .quark → ∀ t, quarkTarget env reg ns0 q = .ok (some t) → t.name = x →
+      q.errorDomain = d) :
+    nsGet res x = some { n with errorDomain := d } ∨
+    (nsGet res x = some n ∧
+      ∀ q ∈ qs, q.kind = .quark → ∀ t, quarkTarget env reg ns0 q = .ok (some t) → t.name ≠ x) := by
+  induction qs generalizing acc n with
+  | nil =>
+    simp only [pairQuarksLoop, pure, Except.pure] at h
+    cases h
+    exact Or.inr ⟨hn, fun q hq => by cases hq⟩
+  | cons q qs ih =>
+    unfold pairQuarksLoop at h
+    have hag' : ∀ q' ∈ qs, q'.kind = .quark → ∀ t, quarkTarget env reg ns0 q' = .ok (some t) → t.name = x →
+        q'.errorDomain = d := fun q' hq' => hagree q' (by simp [hq'])
+    by_cases hqk : q.kind = .quark
+    · simp only [hqk, beq_self_eq_true, if_true, bind, Except.bind] at h
+      cases ht : quarkTarget env reg ns0 q with
+      | error err => rw [ht] at h; cases h
+      | ok o =>
+        rw [ht] at h
+        cases o with
+        | none =>
+          simp only at h
+          rcases ih acc n h hn hk hag' with h1 | ⟨h1, h2⟩
+          · exact Or.inl h1
+          · refine Or.inr ⟨h1, ?_⟩
+            intro q' hq' hk' t' ht'
+            rcases List.mem_cons.mp hq' with rfl | hq''
+            · rw [ht] at ht'; cases ht'
+            · exact h2 q' hq'' hk' t' ht'
+        | some t =>
+          simp only at h
+          by_cases hx : t.name = x
+          · have hd : q.errorDomain = d := hagree q (by simp) hqk t ht hx
+            have hn' : nsGet (setErrorDomain acc t.name q.errorDomain) x = some { n with errorDomain := d } := by
+              rw [hx, hd]
+              exact nsGet_setErrorDomain_eq acc x d n hn hk
+            rcases ih _ { n with errorDomain := d } h hn' hk hag' with h1 | ⟨h1, _⟩
+            · exact Or.inl h1
+            · exact Or.inl h1
+          · have hn' : nsGet (setErrorDomain acc t.name q.errorDomain) x = some n := by
+              rw [nsGet_setErrorDomain_ne acc t.name q.errorDomain x (fun e => hx e.symm)]
+              exact hn
+            rcases ih _ n h hn' hk hag' with h1 | ⟨h1, h2⟩
+            · exact Or.inl h1
+            · refine Or.inr ⟨h1, ?_⟩
+              intro q' hq' hk' t' ht'
+              rcases List.mem_cons.mp hq' with rfl | hq''
+              · rw [ht] at ht'; cases ht'; exact hx
+              · exact h2 q' hq'' hk' t' ht'
+    · have : (q.kind == Kind.quark) = false := beq_eq_false_iff_ne.mpr hqk
+      simp only [this, Bool.false_eq_true, if_false] at h
+      rcases ih acc n h hn hk hag' with h1 | ⟨h1, h2⟩
+      · exact Or.inl h1
+      · refine Or.inr ⟨h1, ?_⟩
+        intro q' hq' hk' t' ht'
+        rcases List.mem_cons.mp hq' with rfl | hq''
+        · exact absurd hk' hqk
+        · exact h2 q' hq'' hk' t' ht'
+
+/-! ### passes that only touch classes and interfaces leave the error-quark functions alone -/
+
+theorem isClassLike_quark {q : Node} (hk : q.kind = .quark) : isClassLike q = false := by
+  simp [isClassLike, hk]
+
+theorem resolveNode_kind (res : Str → Option Str) (a : Node) : (resolveNode res a).kind = a.kind := by
+  unfold resolveNode; split <;> rfl
+
+theorem resolveNode_other (res : Str → Option Str) (a : Node) (h : isClassLike a = false) : resolveNode res a = a := by
+  unfold resolveNode; simp [h]
+
+theorem mem_map_quark (f : Node → Node) (hkind : ∀ a, (f a).kind = a.kind)
+    (hid : ∀ a, isClassLike a = false → f a = a) (l : List Node) (q : Node) (hk : q.kind = .quark) :
+    q ∈ l.map f ↔ q ∈ l := by
+  rw [List.mem_map]
+  constructor
+  · rintro ⟨a, ha, rfl⟩
+    have hak : a.kind = .quark := by rw [← hkind a]; exact hk
+    rw [hid a (isClassLike_quark hak)]
+    exact ha
+  · intro hq
+    exact ⟨q, hq, hid q (isClassLike_quark hk)⟩
+
+theorem mem_resolvePass_quark (env : Env) (ns : NS) (q : Node) (hk : q.kind = .quark) :
+    q ∈ resolvePass env ns ↔ q ∈ ns :=
+  mem_map_quark _ (resolveNode_kind _) (resolveNode_other _) ns q hk
+
+theorem mem_pairVirtuals_quark (env : Env) (ns : NS) (q : Node) (hk : q.kind = .quark) :
+    q ∈ pairVirtuals env ns ↔ q ∈ ns := by
+  unfold pairVirtuals
+  apply mem_map_quark _ _ _ ns q hk
+  · intro a; split <;> rfl
+  · intro a h; simp [h]
+
+/-- what a successful `merge` consists of -/
+theorem merge_ok (env : Env) (ns : NS) (dump : List DItem) (m : Merged) (h : merge env ns dump = .ok m) :
+    ∃ fl : NS × List Node,
+      m.reg = uscoreTypeNames (resolvePass env m.afterParse) ∧
+      floatQuarks env m.reg (resolvePass env m.afterParse) = .ok fl ∧
+      m.paired = pairVirtuals env fl.1 ∧ m.floated = fl.2 ∧
+      pairQuarksLoop env m.reg m.paired (m.paired ++ m.floated) m.paired = .ok m.final := by
+  unfold merge at h
+  simp only [bind, Except.bind] at h
+  cases hp : parseDump env ns dump with
+  | error e => rw [hp] at h; cases h
+  | ok p =>
+    rw [hp] at h
+    obtain ⟨ns1, priv⟩ := p
+    simp only at h
+    cases hf : floatQuarks env (uscoreTypeNames (resolvePass env ns1)) (resolvePass env ns1) with
+    | error e => rw [hf] at h; cases h
+    | ok fl =>
+      rw [hf] at h
+      simp only at h
+      cases hq : pairQuarksWithEnums env (uscoreTypeNames (resolvePass env ns1)) (pairVirtuals env fl.1) fl.2 with
+      | error e => rw [hq] at h; cases h
+      | ok ns5 =>
+        rw [hq] at h
+        simp only [pure, Except.pure] at h
+        cases h
+        exact ⟨fl, rfl, hf, rfl, rfl, hq⟩
 
 end GIVerif.Dump
 
